@@ -609,6 +609,15 @@ pub fn run(tier: Tier) -> Report {
         }
     });
     rep.add_states(dec_cases.len() as u64);
+    // ... also after size changes: every history of intra / predicted / disposable pictures of five
+    // shapes (including transposes with identical plane sizes) up to the fixpoint of the state graph
+    {
+        let w = super::refgraph::size_world();
+        let ex = super::refgraph::explore(&w, &rep, "C06", if tier.thorough() { None } else { Some(4) }, false);
+        rep.add_states(ex.nodes.len() as u64);
+        rep.add_transitions(ex.transitions);
+        rep.extra("size_change_graph", json!({"states": ex.nodes.len(), "transitions": ex.transitions, "fixpoint": ex.fixpoint, "max_depth": ex.max_depth}));
+    }
     rep.set_rule(
         "header descriptions -> bits (independent writer) -> parser::decode_picture, compared field by field with the description, followed by a 32-bit sentinel that must be the next thing read: Sorenson: every version, TR, size code, all 256x256 8-bit sizes, all 16-bit widths/heights at 3 fixed partners, type x deblock x quantizer, PEI bytes; H.263: each field of PTYPE / PLUSPTYPE (UFEP, OPPTYPE incl. all 2^10 mode patterns, MPPTYPE, CPM, CPFMT incl. all 512x512 indications and all EPAR, CPCFC/ETR, UUI, SSS, ELNUM/RLNUM, RPSMF, TRPI/TRP, BCI, TRB/DBQUANT, PEI) over its whole range on three base headers, all field pairs over boundary sets, a full cross of reduced domains, inheritance from every subset of OPPTYPE options, all 8 bit phases x stuffing lengths; non-trivial = H.263 headers",
     );
